@@ -30,12 +30,13 @@ k- = 1000
 m = [length]
 s = [time]
 g = [mass]
-foot = 3 / 10 * m
-yard = 3 * foot
-mile = 1760 * yard
+foot = 3 / 10 * m = ft
+yard = 3 * ft = yd
+mile = 1760 * yd
 minute = 60 * s
-pound = 450 * g
-ounce = pound / 16
+pound = 450 * g = lb
+ounce = lb / 16 = oz
+dram = oz / 16
 stone = 14 * pound
 @context(p=2) A = a
     [length] -> [time]: value * p * s / m
@@ -84,7 +85,8 @@ def shards(tier, seed):
     return out
 
 
-PROBES = [("foot", "m"), ("yard", "m"), ("mile", "m"), ("kfoot", "m"), ("pound", "g"), ("ounce", "g"),
+PROBES = [("foot", "m"), ("yard", "m"), ("mile", "m"), ("kfoot", "m"), ("pound", "g"), ("ounce", "g"), ("dram", "g"),
+          ("mile", "yd"), ("dram", "stone"),
           ("stone", "g"), ("minute", "s"), ("m", "s"), ("s", "g"), ("g", "m"), ("m", "g"), ("foot", "minute"),
           ("pound", "foot"), ("g", "s")]
 
